@@ -59,4 +59,5 @@ const (
 	VpSfFinish                // doCall deferred section, before g.mu.Lock
 	VpSfFinished              // doCall deferred section, wg released, entry removed (g.mu held)
 	VpSfPut                   // call record about to go back to the pool
+	VpSfJoinLocked            // Group.Do follower registered, g.mu still held
 )
